@@ -168,10 +168,22 @@ func runDiscCase(c *DCase) (string, []DObs, string, error) {
 				o.Dropped[jn] = append(o.Dropped[jn], k+1000*jn)
 			}
 		}
+		// the by-hash view (what the coordinator assigns from) is exactly the active view of this moment
 		byHash := td.ActiveTargetsByHash()
+		cur := map[uint64]bool{}
+		for _, ts := range act {
+			for _, t := range ts {
+				cur[t.ShardTarget.Hash] = true
+			}
+		}
 		for h := range byHash {
-			if _, ok := hashKey[h]; !ok {
-				snapshotViolation = "ActiveTargetsByHash has a hash that ActiveTargets does not"
+			if !cur[h] {
+				snapshotViolation = fmt.Sprintf("after op %d ActiveTargetsByHash lists a target that ActiveTargets does not (any more)", len(allObs)+1)
+			}
+		}
+		for h := range cur {
+			if byHash[h] == nil {
+				snapshotViolation = fmt.Sprintf("after op %d ActiveTargetsByHash misses an active target", len(allObs)+1)
 			}
 		}
 		for h, k := range hashKey {
